@@ -238,9 +238,9 @@ func runC01(e *sim.Env) {
 func init() {
 	register(&Prop{
 		ID: "C01", Run: runC01, Quick: 1500, Thorough: 40000, Level: "exploration",
-		Rule: "one run = drawn network (regime, hardfork heights, maturity, interval) + drawn fork tree (6-40 valid blocks with the full transaction mix, 0-3 single-field corrupted twins with header-valid chains on top) + drawn submission plan (in order / split / orphans first / duplicated / mixed branches); distinct = distinct abstract trace (sequence of outcome kind, reorg depth bucket, regimes, rejection reason); non-trivial = at least one reorg that reverts blocks or one rejected submission",
-		Real: []string{"chain.Manager", "chain.DBStore"},
-		Stub: []string{"disk: simdisk.DB (in-memory chain.DB with explicit commit)"},
+		Rule:        "one run = drawn network (regime, hardfork heights, maturity, interval) + drawn fork tree (6-40 valid blocks with the full transaction mix, 0-3 single-field corrupted twins with header-valid chains on top) + drawn submission plan (in order / split / orphans first / duplicated / mixed branches); distinct = distinct abstract trace (sequence of outcome kind, reorg depth bucket, regimes, rejection reason); non-trivial = at least one reorg that reverts blocks or one rejected submission",
+		Real:        []string{"chain.Manager", "chain.DBStore"},
+		Stub:        []string{"disk: simdisk.DB (in-memory chain.DB with explicit commit)"},
 		Assumptions: []string{"go.sia.tech/core consensus rules are the definition of validity", "blocks are generated by the harness, PoW target is trivial"},
 	})
 }
